@@ -78,7 +78,9 @@ def spec_gssv (dt : Int) : List Pre := [
   ⟨7, "B: ncol >= 0, lda >= max(0,n), DN/Dtype/GE", fun a => decide (0 ≤ a.B_ncol ∧ denseB a dt a.A_nrow)⟩ ]
 def specInfo_gssv (dt : Int) (a : Args) : Int := firstViolated (spec_gssv dt) a
 
-/-! ### gssvx, gsisx (same documentation of the screened arguments) -/
+/-! ### gssvx, gsisx (same documentation of the screened arguments)
+"If B->ncol = 0, only LU decomposition is performed, the triangular solve is skipped": the description
+of B is a precondition only when B has columns, and likewise X. -/
 abbrev optionsOk (a : Args) : Prop :=
   (a.options_Fact = DOFACT ∨ a.options_Fact = SamePattern ∨ a.options_Fact = SamePattern_SameRowPerm ∨ a.options_Fact = FACTORED) ∧
   transEnumOk a.options_Trans ∧ (a.options_Equil = NO ∨ a.options_Equil = YES)
@@ -95,9 +97,10 @@ def spec_gssvx (dt : Int) : List Pre := [
   ⟨8, "Fact = FACTORED and equed = C or B: every C[i] > 0", fun a => decide (
       a.options_Fact = FACTORED → colEquilibrated a → 0 < a.rcmin_C)⟩,
   ⟨12, "lwork >= -1", fun a => decide (-1 ≤ a.lwork)⟩,
-  ⟨13, "B: ncol >= 0, lda >= max(0,n), DN/Dtype/GE", fun a => decide (0 ≤ a.B_ncol ∧ denseB a dt a.A_nrow)⟩,
-  ⟨14, "X: ncol >= 0, ldx >= max(0,n), ncol = B->ncol unless B->ncol = 0, DN/Dtype/GE", fun a => decide (
-      0 ≤ a.X_ncol ∧ denseX a dt a.A_nrow ∧ (a.B_ncol = 0 ∨ a.B_ncol = a.X_ncol))⟩ ]
+  ⟨13, "B: ncol >= 0 and, unless ncol = 0 (factor only, B is not examined), lda >= max(0,n), DN/Dtype/GE", fun a => decide (
+      0 ≤ a.B_ncol ∧ (0 < a.B_ncol → denseB a dt a.A_nrow))⟩,
+  ⟨14, "X: ncol >= 0, ncol = B->ncol unless B->ncol = 0 and, unless ncol = 0, ldx >= max(0,n), DN/Dtype/GE", fun a => decide (
+      0 ≤ a.X_ncol ∧ (a.B_ncol = 0 ∨ a.B_ncol = a.X_ncol) ∧ (0 < a.X_ncol → denseX a dt a.A_nrow))⟩ ]
 def specInfo_gssvx (dt : Int) (a : Args) : Int := firstViolated (spec_gssvx dt) a
 def spec_gsisx (dt : Int) : List Pre := spec_gssvx dt
 def specInfo_gsisx (dt : Int) (a : Args) : Int := firstViolated (spec_gsisx dt) a
@@ -161,14 +164,11 @@ def specInfo_sp_gemv (dt : Int) (a : Args) : Int := firstViolated (spec_sp_gemv 
 abbrev sp_gemv_agrees (dt : Int) (a : Args) : Prop :=
   (a.A_Stype = SLU_NC ∨ a.A_Stype = SLU_NCP) ∧ a.A_Dtype = dt ∧ a.A_Mtype = SLU_GE
 
-/-! ### gssvx: where the implemented chain is known to differ from the header
-(see `argchain_gssvx_partial`): (i) B (resp. X) is not examined at all when B->ncol = 0 (resp.
-X->ncol = 0); (ii) the test of X is not chained to the tests of lwork and B, so a violation at X
-(which includes "B->ncol differs from X->ncol") overrides an earlier -12 / -13. -/
-abbrev gssvx_agrees (dt : Int) (a : Args) : Prop :=
-  (a.B_ncol = 0 → denseB a dt a.A_nrow) ∧ (a.X_ncol = 0 → denseX a dt a.A_nrow ∧ (a.B_ncol = 0 ∨ a.B_ncol = a.X_ncol)) ∧
-  ((-1 ≤ a.lwork ∧ 0 ≤ a.B_ncol ∧ denseB a dt a.A_nrow) ∨
-   (0 ≤ a.X_ncol ∧ denseX a dt a.A_nrow ∧ (a.B_ncol = 0 ∨ a.B_ncol = a.X_ncol)))
+/-! ### gsisx: where the implemented chain differs from the header (see `argchain_gsisx_partial`):
+`[sdcz]gsisx` examines the description of B and X even when they have no columns, i.e. it rejects calls
+the header allows (outside the scope of C18, which is about illegal arguments). -/
+abbrev gsisx_agrees (dt : Int) (a : Args) : Prop :=
+  (a.B_ncol = 0 → denseB a dt a.A_nrow) ∧ (a.X_ncol = 0 → denseX a dt a.A_nrow)
 
 /-! ### what may happen ahead of the screening exit (compared with the translator's findings) -/
 /-- caller objects the routine is allowed to write before it has validated its arguments: none.
